@@ -864,6 +864,16 @@ def ds_observe(case) -> dict[str, Any]:
             r2 = DesignSpace.from_file(p, hdf_node_path=node)
             obs["hdf"] = canon_ds(r1)
             obs["hdf_file"] = canon_ds(r2)
+            # the generic entry points: to_file/from_file on an HDF path, same node
+            p2 = os.path.join(d, "ds2.hdf5")
+            try:
+                if node:
+                    ds.to_file(p2, hdf_node_path=node)
+                else:
+                    ds.to_file(p2)
+                obs["hdf_to_file"] = canon_ds(DesignSpace.from_file(p2, hdf_node_path=node))
+            except Exception as e:  # noqa: BLE001
+                obs["hdf_to_file"] = "E:" + common.exc_class(e)
             obs["hdf_eq"] = bool(r1 == ds)
             obs["hdf_obj"] = r1
         except Exception as e:  # noqa: BLE001
@@ -945,6 +955,8 @@ def ds_oracle(case, obs) -> list[tuple[str, str]]:
             bad.append(("ds-hdf-differs", "design space reloaded from HDF is not == the original"))
         if obs["hdf_file"] != obs["hdf"]:
             bad.append(("ds-from-file-differs", "DesignSpace.from_file and from_hdf disagree"))
+        if obs["hdf_to_file"] != obs["hdf"]:
+            bad.append(("ds-to-file-differs", f"DesignSpace.to_file/from_file on an HDF path (node {case['node']!r}) gives {obs['hdf_to_file'][:80]} instead of the to_hdf/from_hdf result"))
     if obs.get("csv") == "E":
         bad.append(("ds-csv-raises", f"design space text round trip raised {obs.get('csv_exc')}"))
     else:
@@ -1042,6 +1054,11 @@ def gen_pb_case(rng) -> dict[str, Any]:
         "obs": rng.sample(["obs", "o_2", "Aa"], rng.pick([0, 0, 1, 2])),
         "run": None if rng.chance(0.25) else {"algo": rng.pick(["SLSQP", "SLSQP", "PYDOE_FULLFACT", "L-BFGS-B"]), "max_iter": rng.randint(1, 7)},
         "diff": rng.pick(["user", "user", "finite_differences"]),
+        # second stage: more evaluations recorded after a first save, then `to_hdf(append=True)` again
+        "stage2": None if rng.chance(0.6) else [
+            [[rat(Fraction(rng.randint(-16, 16), 8)) for _ in range(4)], rng.pick([["f"], ["f", "@f"], ["extra"], []])]
+            for _ in range(rng.randint(1, 4))
+        ],
         "tols": None if rng.chance(0.4) else [rat(rng.pick([Fraction(1, 8), Fraction(1, 1024), Fraction(0)])),
                                               rat(rng.pick([Fraction(1, 4), Fraction(1, 4096), Fraction(0)]))],
     }
@@ -1078,6 +1095,10 @@ def build_problem(case):
 
 
 def _plain(v):
+    if hasattr(v, "toarray") and hasattr(v, "tocsr"):
+        return ["sparse", _plain(np.asarray(v.toarray()))]
+    if isinstance(v, np.ndarray) and v.dtype.kind in "US":
+        return ["str", list(v.shape), [str(t) for t in v.ravel().tolist()]]
     if isinstance(v, np.ndarray):
         return ["nd", list(v.shape), [repr(float(t)) for t in np.real(v).astype(float).ravel().tolist()]]
     if isinstance(v, (np.floating, float)):
@@ -1149,7 +1170,19 @@ def pb_observe(case) -> dict[str, Any]:
                 obs["run_exc"] = common.exc_class(e)
         p = os.path.join(d, "pb.h5")
         try:
-            pb.to_hdf(p, append=case["append"], hdf_node_path=case["node"])
+            pb.to_hdf(p, append=case["append"] or bool(case.get("stage2")), hdf_node_path=case["node"])
+            if case.get("stage2"):
+                n = pb.design_space.dimension
+                last = pb.database.get_x_vect(len(pb.database)) if len(pb.database) else None
+                for k, (xs, names) in enumerate(case["stage2"]):
+                    x = last if (k == 0 and last is not None) else np.array([float(Fraction(t)) for t in xs[:n]] + [0.0] * max(0, n - 4))
+                    outs = {}
+                    for nm in names:
+                        if nm in pb.database.get(x, {}) if pb.database.get(x) else False:
+                            continue
+                        outs[nm] = np.array([1.0 + k, 2.0] if nm.startswith("@") else [0.5 * k]) if nm != "f" else float(k)
+                    pb.database.store(x, outs)
+                pb.to_hdf(p, append=True, hdf_node_path=case["node"])
             obs["orig"] = pb_desc(pb)
             pb2 = OptimizationProblem.from_hdf(p, hdf_node_path=case["node"])
             obs["back"] = pb_desc(pb2)
@@ -1199,6 +1232,8 @@ def check_pb_cases(res: Result, cases) -> None:
         res.count("pb:node=" + ("root" if not case["node"] else "nested"))
         res.count("pb:run=" + (case["run"]["algo"] if case["run"] else "none"))
         res.count(f"pb:ncstr={len(case['cstr'])}")
+        if case.get("stage2"):
+            res.count("pb:two-stage-append")
         if "orig" in obs and obs["orig"]["solution"] is not None:
             res.count("pb:with-solution")
         if case["run"] and len(case["cstr"]) >= 1:
@@ -1219,7 +1254,7 @@ def shrink_pb(case, key):
             return False
 
     cur = case
-    for k, v in (("obs", []), ("two_vars", False), ("dim", 1), ("append", False), ("minimize", True), ("diff", "user"), ("tols", None)):
+    for k, v in (("obs", []), ("two_vars", False), ("dim", 1), ("append", False), ("minimize", True), ("diff", "user"), ("tols", None), ("stage2", None)):
         if cur.get(k) != v and fails({**cur, k: v}):
             cur = {**cur, k: v}
     if len(cur["cstr"]) > 1:
@@ -1250,7 +1285,8 @@ def gen_cache_case(rng) -> dict[str, Any]:
             ops.append(["jac", ni, x, y, rng.randint(-8, 8)])
         else:
             ops.append(["reopen", ni])
-    return {"kind": "cache", "nodes": nodes, "ops": ops, "names": rng.pick([["x", "y"], ["x_long", "B"], ["b", "a"]])}
+    return {"kind": "cache", "nodes": nodes, "ops": ops, "names": rng.pick([["x", "y"], ["x_long", "B"], ["b", "a"]]),
+            "sparse": rng.chance(0.3), "strings": rng.chance(0.3)}
 
 
 def _cache_entries(cache) -> list:
@@ -1278,6 +1314,20 @@ def cache_observe(case) -> dict[str, Any]:
     obs: dict[str, Any] = {"bad": []}
     try:
         caches = [HDF5Cache(hdf_file_path=p, hdf_node_path=n) for n in case["nodes"]]
+        def mk_inp(x, y):
+            inp = {nx: np.array([float(x), 1.0]), ny: np.array([y])}
+            if case.get("strings"):
+                inp["tag"] = np.array(["ab", "c"])
+            return inp
+
+        def mk_jac(val):
+            j = np.array([[val / 2, 0.0]])
+            if case.get("sparse"):
+                from scipy.sparse import csr_array
+
+                return csr_array(j)
+            return j
+
         # plain twin: per node, ordered entries {inputs -> (outputs, jac)}; first write of a group wins
         twin: list[dict] = [dict() for _ in case["nodes"]]
         for k, op in enumerate(case["ops"]):
@@ -1291,7 +1341,7 @@ def cache_observe(case) -> dict[str, Any]:
                 caches[ni] = re
                 continue
             _, ni, x, y, val = op
-            inp = {nx: np.array([float(x), 1.0]), ny: np.array([y])}
+            inp = mk_inp(x, y)
             key = (x, y)
             ent = twin[ni].setdefault(key, {"out": None, "jac": None})
             if op[0] == "out":
@@ -1299,7 +1349,7 @@ def cache_observe(case) -> dict[str, Any]:
                 if ent["out"] is None:
                     ent["out"] = val
             else:
-                caches[ni].cache_jacobian(inp, {"o": {nx: np.array([[val / 2, 1.0]])}})
+                caches[ni].cache_jacobian(inp, {"o": {nx: mk_jac(val)}})
                 if ent["jac"] is None:
                     ent["jac"] = val
         for ni, node in enumerate(case["nodes"]):
@@ -1311,11 +1361,11 @@ def cache_observe(case) -> dict[str, Any]:
             # against the twin
             exp = []
             for (x, y), ent in twin[ni].items():
-                inputs = tuple(sorted([(nx, _plain(np.array([float(x), 1.0])).__repr__()), (ny, _plain(np.array([y])).__repr__())]))
+                inputs = tuple(sorted((k, _plain(v).__repr__()) for k, v in mk_inp(x, y).items()))
                 outs = () if ent["out"] is None else tuple(sorted([
                     ("o", _plain(np.array([ent["out"] / 4])).__repr__()),
                     ("m", _plain(np.array([[1.0, ent["out"]], [0.5, 2.0]])).__repr__())]))
-                jac = () if ent["jac"] is None else (("o", nx, _plain(np.array([[ent["jac"] / 2, 1.0]])).__repr__()),)
+                jac = () if ent["jac"] is None else (("o", nx, _plain(mk_jac(ent["jac"])).__repr__()),)
                 exp.append((inputs, outs, jac))
             if back != exp:
                 obs["bad"].append(("cache-reopen-content", f"node {node!r}: reopened entries differ from what was cached"))
@@ -1331,6 +1381,10 @@ def check_cache_cases(res: Result, cases) -> None:
         res.evaluations += 1
         obs = cache_observe(case)
         res.count(f"cache:nodes={len(case['nodes'])}")
+        if case.get("sparse"):
+            res.count("cache:sparse-jacobian")
+        if case.get("strings"):
+            res.count("cache:string-input")
         res.count(f"cache:ops={min(len(case['ops']) // 4 * 4, 28)}+")
         n_ent = max(len({(o[1], o[2], o[3]) for o in case["ops"] if o[0] != "reopen" and o[1] == ni}) for ni in range(len(case["nodes"])))
         res.count("cache:entries>=10" if n_ent >= 10 else "cache:entries<10")
